@@ -57,6 +57,7 @@ func (mds JoinDatasource) Execute(ctx context.Context, from time.Time, to time.T
 			if b := fieldUrnsSet[currFieldsMeta[fIdx].Urn()]; b {
 				return util.DefaultValue[Result](), fmt.Errorf("duplicate field urn %s found while joining datasources", currFieldsMeta[fIdx].Urn())
 			}
+			fieldUrnsSet[currFieldsMeta[fIdx].Urn()] = true
 		}
 	}
 	var joinedStreams stream.Stream[timeseries.TsRecord[[]any]]
